@@ -1317,6 +1317,12 @@ impl<B> StreamRef<B> {
         let mut send_buffer = self.send_buffer.inner.lock().unwrap();
         let send_buffer = &mut *send_buffer;
 
+        // PUSH_PROMISE may only be sent on a stream whose send half is still
+        // open. Check this before a promised stream ID is reserved.
+        if me.store.resolve(self.opaque.key).state.is_send_closed() {
+            return Err(UserError::InactiveStreamId);
+        }
+
         let actions = &mut me.actions;
         let promised_id = actions.send.reserve_local()?;
 
